@@ -205,6 +205,15 @@ Fixpoint tick_chain (t0 d prev : Z) (l : list event) : bool :=
              else spec_tick_sat t0 d prev (c_when c))) && tick_chain t0 d k l'
   end.
 
+(* per commit of a history: does its tick equal max prev (whole periods elapsed since t0), computed
+   with unbounded integers (no saturation), and does Time.Sub stay in range for it *)
+Fixpoint chain_verdicts (t0 d prev : Z) (l : list event) : list (bool * bool) :=
+  match l with
+  | [] => []
+  | (c, k) :: l' =>
+      ((k =? spec_tick t0 d prev (c_when c)), in_range t0 (c_when c)) :: chain_verdicts t0 d k l'
+  end.
+
 Fixpoint nondecreasing (prev : Z) (l : list Z) : bool :=
   match l with
   | [] => true
